@@ -159,6 +159,35 @@ theorem failed_statement_leaves_nothing (s : St) (f : Frame) (rest : List Frame)
   · exact key _ hfr hge
   · exact key s hf (Nat.le_refl _)
 
+/-- **failing statements do not accumulate.**  Any number of statements that fail one after the other under ON ERROR RESUME
+    NEXT (a loop around a failing statement, say) leave the state as it was before the first of them: before the repair every
+    one of them left its partial results behind -/
+theorem failing_statements_do_not_accumulate (s : St) (f : Frame) (rest : List Frame) (n : Nat) (hf : s.frames = f :: rest)
+    (h : AtBoundary s f n) (stmts : List (List (Nat × Nat))) (ha : ∀ b ∈ stmts, staysAbove s.depth s.depth b = true) :
+    run s (stmts.flatMap fun b => (b.map fun pq => Ev.instr pq.1 pq.2) ++ [.handledNext]) = s := by
+  induction stmts with
+  | nil => rfl
+  | cons b r ih =>
+    rw [List.flatMap_cons, run_append, failed_statement_leaves_nothing s f rest n hf h b (ha b (by simp))]
+    exact ih (fun b' hb' => ha b' (by simp [hb']))
+
+/-- a statement that completes with the stack where it found it (what the code generator produces: C03's monitor checks it
+    on every run) and never reaches below that depth leaves the frames alone: the next statement starts at a boundary too -/
+theorem completed_statement_keeps_boundary (s : St) (f : Frame) (rest : List Frame) (n : Nat) (hf : s.frames = f :: rest)
+    (h : AtBoundary s f n) (body : List (Nat × Nat)) (ha : staysAbove s.depth s.depth body = true)
+    (hbal : (run s (body.map fun pq => Ev.instr pq.1 pq.2)).depth = s.depth) :
+    (run s (body.map fun pq => Ev.instr pq.1 pq.2)).frames = f :: rest ∧
+      AtBoundary (run s (body.map fun pq => Ev.instr pq.1 pq.2)) f n := by
+  have hm : ∀ i ∈ f.marks, i < s.depth := by
+    intro i hi
+    rw [h.1] at hi
+    have := consec_lt f.base n i hi
+    have := boundary_depth_formula s f n h
+    omega
+  rcases body_keeps_frames f rest s.depth hm body s hf ha with ⟨hfr, _⟩ | ⟨rfl, _⟩
+  · exact ⟨hfr, h.1, by rw [hbal]; exact h.2⟩
+  · exact ⟨by simpa [run_nil] using hf, h.1, by simpa [run_nil] using h.2⟩
+
 /-- **none of its partial results remain (module-level handler).**  Whatever procedures are active when the error happens
     (their frames lie above the depth the module-level statement started at), the handler starts on the module-level frame
     alone, at a statement boundary: exactly where the failed module-level statement started -/
